@@ -82,6 +82,7 @@ type op struct {
 	Value     string `json:"value,omitempty"`
 	Dt        int64  `json:"dt,omitempty"`
 	Aged      uint64 `json:"aged,omitempty"` // create: batches the feed's request context has issued before the history starts
+	Path      string `json:"path,omitempty"` // create: the feed's value path ("" = the top-level field "last")
 }
 
 type val struct {
@@ -108,6 +109,7 @@ type feedM struct {
 	// restarts counts the genesis round trips this feed went through
 	restarts int
 	aged     uint64 // batches issued before the history (0 = a new feed)
+	path     string // value json path
 }
 
 type machine struct {
@@ -115,7 +117,7 @@ type machine struct {
 	feeds []*feedM
 	// statistics
 	nBatches, nValues, nNegative, nTrim, nBelowThr, nAutoPause, nStranger, nNoField int
-	nAged, nAgedValues                                                              int
+	nAged, nAgedValues, nPathFeeds, nPathValues                                     int
 	// restart statistics
 	nRestart, nRestartRunning, nRestartOpenBatch, nRestartOneValue, nRestartCollapse     int
 	nRestartManyValues                                                                   int
@@ -231,7 +233,9 @@ func (m *machine) Next(t *rapid.T) op {
 			Providers: perm, Thr: uint32(rapid.IntRange(1, n).Draw(t, "thr")), Timeout: timeout, Freq: uint64(timeout) + uint64(rapid.IntRange(0, 3).Draw(t, "freq")),
 			// one feed in four has been running for a long time: its request context has already issued some 250 batches
 			// (no generated history is that long; the batch counter is part of the keys the feed values are stored under)
-			Aged: uint64(rapid.SampledFrom([]int{0, 0, 0, 249, 252, 254, 65533}).Draw(t, "aged"))}
+			Aged: uint64(rapid.SampledFrom([]int{0, 0, 0, 249, 252, 254, 65533}).Draw(t, "aged")),
+			// the value is addressed by a field name or by a path into the response body
+			Path: rapid.SampledFrom([]string{"", "", "data.last", "ticks.1"}).Draw(t, "path")}
 	case k < 45 && len(reqs) > 0:
 		r := reqs[rapid.IntRange(0, len(reqs)-1).Draw(t, "req")]
 		o := op{Kind: "respond", ReqID: r.id, Provider: r.provider, Feed: r.feed}
@@ -303,6 +307,24 @@ func (m *machine) provAddrs(ps []int) []string {
 }
 
 // snapshotFeed captures what a rejected stranger operation must leave untouched.
+func valuePath(p string) string {
+	if p == "" {
+		return "last"
+	}
+	return p
+}
+
+// bodyFor builds a response body that carries the number v where the feed's value path points.
+func bodyFor(path, v string) string {
+	switch path {
+	case "data.last":
+		return fmt.Sprintf(`{"data":{"last":%s,"first":1},"last":"x"}`, v)
+	case "ticks.1":
+		return fmt.Sprintf(`{"ticks":[0,%s,7]}`, v)
+	}
+	return fmt.Sprintf(`{"last":%s}`, v)
+}
+
 func (m *machine) snapshotFeed(f *feedM) string {
 	ctx := m.c.Ctx
 	feed, _ := m.c.E.K.Oracle.GetFeed(ctx, f.name)
@@ -321,7 +343,7 @@ func (m *machine) Apply(o op) error {
 		name := []string{"eth", "eth-usd", "et", "eth-usd/2", "btc"}[len(m.feeds)%5]
 		r := c.Deliver(&oracletypes.MsgCreateFeed{FeedName: name, LatestHistory: o.Hist, Description: "d", Creator: m.addr(o.Who), ServiceName: svcName,
 			Providers: m.provAddrs(o.Providers), Input: input, Timeout: o.Timeout, ServiceFeeCap: sdk.NewCoins(sdk.NewInt64Coin("stake", 200)),
-			RepeatedFrequency: o.Freq, AggregateFunc: o.Agg, ValueJsonPath: "last", ResponseThreshold: o.Thr})
+			RepeatedFrequency: o.Freq, AggregateFunc: o.Agg, ValueJsonPath: valuePath(o.Path), ResponseThreshold: o.Thr})
 		if r.Outcome != chain.OK {
 			return pbt.Failf("C17/create-failed", "valid feed creation failed: %v (%+v)", r, o)
 		}
@@ -340,7 +362,10 @@ func (m *machine) Apply(o op) error {
 			m.nAged++
 		}
 		m.feeds = append(m.feeds, &feedM{name: name, creator: o.Who, agg: o.Agg, hist: o.Hist, thr: o.Thr, nprov: len(o.Providers),
-			ctxID: strings.ToUpper(feed.RequestContextID), batches: map[uint64]*batchM{}, aged: o.Aged})
+			ctxID: strings.ToUpper(feed.RequestContextID), batches: map[uint64]*batchM{}, aged: o.Aged, path: valuePath(o.Path)})
+		if o.Path != "" {
+			m.nPathFeeds++
+		}
 		events = append(events, eventsOf{r.Events})
 	case "start", "pause", "edit":
 		f := m.feeds[o.Feed]
@@ -419,7 +444,11 @@ func (m *machine) Apply(o op) error {
 		msg := &servicetypes.MsgRespondService{RequestId: o.ReqID, Provider: m.addr(o.Provider), Result: resultOK}
 		switch o.Mode {
 		case "value":
-			msg.Output = fmt.Sprintf(`{"header":{},"body":{"last":%s}}`, jsonNumber(o.Value))
+			path := "last"
+			if o.Feed >= 0 && o.Feed < len(m.feeds) {
+				path = m.feeds[o.Feed].path
+			}
+			msg.Output = fmt.Sprintf(`{"header":{},"body":%s}`, bodyFor(path, jsonNumber(o.Value)))
 		case "nofield":
 			msg.Output = `{"header":{},"body":{"other":"1"}}`
 		default:
@@ -690,6 +719,9 @@ func (m *machine) process(evs []abciEvent) error {
 				if f.aged > 0 && st.BatchCounter > 255 {
 					m.nAgedValues++
 				}
+				if f.path != "last" {
+					m.nPathValues++
+				}
 				f.values = append([]val{{data: "?" + strings.Join(b.outputs, ","), ts: m.c.Time()}}, f.values...)
 				if uint64(len(f.values)) > f.hist {
 					f.values = f.values[:f.hist]
@@ -849,6 +881,7 @@ func (m *machine) Classify() (bool, []string) {
 	add(m.nNegative > 0, "all-negative-set")
 	add(m.nTrim > 0, "history-trim")
 	add(m.nAgedValues >= 2, "aged-feed-stored-values-across-a-counter-byte-boundary")
+	add(m.nPathValues > 0, "value-addressed-by-a-path")
 	add(m.c.Time().Year() > 2262 && m.nValues > 0, "block-time-beyond-2262")
 	add(m.nBelowThr > 0, "below-threshold-batch")
 	add(m.nStranger > 0, "stranger-attempt")
